@@ -552,3 +552,42 @@ def r11(cx):
                  "the background task sets its `running` flag, calls `%s`, and clears the flag in straight-line code: if anything below panics the task dies with the flag "
                  "set, and TaskManager::stop() -- which sleeps in a loop until the flag is false -- never returns: close() hangs" % work[0].primary.split("::")[-1])
     cx.floor("background tasks that set a polled flag", n, 2)
+
+
+@rule("C17", "C17.R12", "an L0 stall is lifted by the level task on its own: it keeps compacting while L0 is at the stall limit")
+def r12(cx):
+    """Writers stalled on the L0 file count wait for `signal_work_done` and re-read the count.  Only a compaction OUT OF L0
+    lowers it.  The level task performs one `compact()` per wake-up and is woken by a finished flush (and at start-up);
+    the strategy picks the level with the highest score, which need not be L0.  Once the writers are stalled there are no
+    more flushes, hence no more wake-ups: if the wake-ups of the last flushes went to another level, L0 is never
+    compacted and every commit() waits for ever.  Decided (necessary): after a successful compaction the level task can
+    re-arm itself (notify its own Notify, or loop around `compact` without waiting) before it waits again."""
+    f = cx.f
+    tb = f.body("TaskManager::new")
+    n = 0
+    for cb in f.closures_of(tb):
+        if cb.kind != "coroutine":
+            continue
+        work = cb.calls_to("CompactionOperations::compact")
+        waits = [c for c in cb.calls if c.bb in cb.live and c.primary.endswith("Notify::notified")]
+        if not work or not waits:
+            continue
+        n += 1
+        own = set()
+        for w in waits:
+            own |= origin_of_operand(cb, w.args[0], through_calls="all").upvar_names
+        rearm = [c for c in cb.calls if c.bb in cb.live and c.primary.endswith("Notify::notify_one") and c.bb in cb.reachable_after([work[0].bb])
+                 and own & origin_of_operand(cb, c.args[0], through_calls="all").upvar_names]
+        # an inner loop around compact() that does not contain the wait
+        inner = False
+        cyc = loop_of(cb, work[0].bb)
+        if cyc and not any(w.bb in cyc for w in waits):
+            inner = True
+        # narrower cycle: is there a cycle through compact avoiding every wait block?
+        if not inner:
+            r = cb.reachable_after([work[0].bb], avoid={w.bb for w in waits})
+            inner = work[0].bb in r
+        cx.check(bool(rearm) or inner, "the level task can run another compaction without an external wake-up", "level-task-one-compaction-per-wakeup", work[0].where(),
+                 "the level-compaction task runs exactly one compaction per wake-up and is woken only by a finished flush / at start-up: with L0 at the stall limit and another "
+                 "level scoring higher, the last wake-ups are spent on that level, the stalled writers cause no further flush, and L0 is never compacted -- commit() hangs")
+    cx.floor("level-compaction task loops", n, 1)
